@@ -755,11 +755,17 @@ func (vfs *OrefaFS) RemoveAll(path string) error {
 		return nil
 	}
 
+	// the nodes are modified under their locks : handles and directory listings read them without the lock of vfs.
+	parent.mu.Lock()
+	defer parent.mu.Unlock()
+
 	if child.mode.IsDir() {
 		vfs.removeAll(absPath, child)
 	}
 
+	child.mu.Lock()
 	child.remove()
+	child.mu.Unlock()
 
 	delete(parent.children, fileName)
 	delete(vfs.nodes, absPath)
@@ -768,6 +774,9 @@ func (vfs *OrefaFS) RemoveAll(path string) error {
 }
 
 func (vfs *OrefaFS) removeAll(absPath string, rootNode *node) {
+	rootNode.mu.Lock()
+	defer rootNode.mu.Unlock()
+
 	if rootNode.mode.IsDir() {
 		for fileName, nd := range rootNode.children {
 			path := absPath + string(vfs.PathSeparator()) + fileName
